@@ -904,10 +904,11 @@ class OneToOne(dict):
                 hash(val)
                 keys_vals = list(dict_or_iterable.items())
         else:
-            for key, val in dict_or_iterable:
+            # may be a one-shot iterator: walk it once
+            keys_vals = list(dict_or_iterable)
+            for key, val in keys_vals:
                 hash(key)
                 hash(val)
-                keys_vals = list(dict_or_iterable)
         for val in kw.values():
             hash(val)
         keys_vals.extend(kw.items())
